@@ -170,6 +170,37 @@ fn differential(l: &mut Local, m: &Mat, rng: &mut Rng) {
             }
         }
     }
+    // the largest representable limits on an input the textbook schedule decodes within 12 iterations
+    let llrs = small_int_llrs(rng, m.cols, &cw);
+    for sched in ["flooding", "layered"] {
+        let want = if sched == "flooding" { textbook_flooding(&mut IntMinSum, m, &llrs, 12) } else { textbook_layered(&mut IntMinSum, m, &llrs, 12) };
+        if want.is_err() {
+            continue;
+        }
+        for limit in [usize::MAX, usize::MAX - 1] {
+            l.eval();
+            let got = if sched == "flooding" { guard(|| fl.decode(&llrs, limit)) } else { guard(|| hl.decode(&llrs, limit)) };
+            match got {
+                Err(p) => {
+                    l.violation(
+                        format!("generic {} decoder panicked with the largest iteration limit: {}", sched, panic_class(&p)),
+                        m.json().set("llrs", jfs(&llrs)).set("limit", limit).set("panic", p),
+                    );
+                    return;
+                }
+                Ok(g) => {
+                    if g != want {
+                        l.violation(
+                            format!("{} decoder with exact integer min-sum differs from the textbook schedule (unlimited iterations)", sched),
+                            m.json().set("llrs", jfs(&llrs)).set("limit", limit).set("decoder", fmt_res(&g)).set("textbook", fmt_res(&want)),
+                        );
+                        return;
+                    }
+                    l.count("unlimited_iteration_limit_calls");
+                }
+            }
+        }
+    }
     l.sample(|| m.json().set("monitor", "differential IntMinSum"));
 }
 
@@ -567,7 +598,7 @@ fn forest_with_odd_check(rng: &mut Rng) -> Option<Mat> {
     None
 }
 
-fn posterior_case<A>(l: &mut Local, name: &str, mk: &dyn Fn() -> A, rng: &mut Rng)
+fn posterior_case<A>(l: &mut Local, name: &str, mk: &dyn Fn() -> A, rng: &mut Rng, star: bool)
 where
     A: DecoderArithmetic,
     A::Llr: Num,
@@ -575,7 +606,15 @@ where
     A::VarMessage: Num,
     A::VarLlr: Num,
 {
-    let Some(m) = forest_with_odd_check(rng) else { return };
+    // star: one check of odd degree 33..79 (a single-parity-check code; its posteriors have a closed form), so that
+    // check nodes far above the usual degrees are covered by the exactness clause as well
+    let m = if star {
+        let d = 33 + 2 * rng.below(24);
+        Mat::new(1, d, (0..d).map(|c| (0, c)).collect(), "single-parity-check-star")
+    } else {
+        let Some(m) = forest_with_odd_check(rng) else { return };
+        m
+    };
     let g = Graph::new(m.rows, m.cols, &m.e);
     if !g.is_forest() {
         panic!("forest generator produced a cycle");
@@ -607,8 +646,13 @@ where
     if is_codeword(m.rows, &m.e, &sign_pattern(&llrs)) {
         return; // (cannot happen: one sign of a checked variable was flipped)
     }
-    let cws = all_codewords(m.rows, m.cols, &m.e);
-    let post = posterior_llrs(&cws, &llrs);
+    let post = if star {
+        // posterior of bit i in a single-parity-check code: its own LLR plus the box-plus of all the others
+        (0..m.cols).map(|i| llrs[i] + crate::oracle::boxplus_excl(&llrs, i)).collect::<Vec<f64>>()
+    } else {
+        let cws = all_codewords(m.rows, m.cols, &m.e);
+        posterior_llrs(&cws, &llrs)
+    };
     let h = if rng.coin() { m.to_sparse() } else { m.to_sparse_shuffled(rng) };
     for sched in ["flooding", "layered"] {
         l.eval();
@@ -727,7 +771,7 @@ where
 }
 
 pub fn run(run: &mut Run) {
-    run.rule = "through the public generic flooding::Decoder<A> / horizontal_layered::Decoder<A>: (1) exact integer min-sum arithmetic (checker-supplied) vs dense-table textbook schedules, results must be equal, small-integer LLRs, limits {0,1,2,3,7,12} (bounded so that the exact i64 arithmetic cannot overflow); (2) Trace<A> wrapper around all 24 built-in arithmetics and IntMinSum logs every trait call; the checker requires the inputs of every call to be exactly the previously logged outputs routed as the textbook says (bit for bit), the check pass before the variable pass, layered rows in index order starting from the previous iteration's messages, a syndrome test after every full iteration and the returned verdict/word/iteration = first iteration whose logged hard decisions satisfy H; (3) forests with check degree >= 2, n <= 14: per-variable LLRs at every iteration >= diameter vs brute-force posteriors (Phi/Tanh f64: relative 1e-6 while all trace values <= 20; f32: 1e-3 while all trace values <= 8; cases outside the accurate range are counted and skipped); matrices inserted in sorted or shuffled order; non-trivial = >= 2 iterations executed; distinct by (schedule, arithmetic, matrix, LLR, limit) digest".into();
+    run.rule = "through the public generic flooding::Decoder<A> / horizontal_layered::Decoder<A>: (1) exact integer min-sum arithmetic (checker-supplied) vs dense-table textbook schedules, results must be equal, small-integer LLRs, limits {0,1,2,3,7,12} (bounded so that the exact i64 arithmetic cannot overflow) and usize::MAX, usize::MAX-1 on inputs the textbook schedule decodes; (2) Trace<A> wrapper around all 24 built-in arithmetics and IntMinSum logs every trait call; the checker requires the inputs of every call to be exactly the previously logged outputs routed as the textbook says (bit for bit), the check pass before the variable pass, layered rows in index order starting from the previous iteration's messages, a syndrome test after every full iteration and the returned verdict/word/iteration = first iteration whose logged hard decisions satisfy H; (3) forests with check degree >= 2, n <= 14, and single-parity-check stars of odd degree 33..79 (closed-form posterior): per-variable LLRs at every iteration >= diameter vs brute-force posteriors (Phi/Tanh f64: relative 1e-6 while all trace values <= 20; f32: 1e-3 while all trace values <= 8; cases outside the accurate range are counted and skipped); matrices inserted in sorted or shuffled order; non-trivial = >= 2 iterations executed; distinct by (schedule, arithmetic, matrix, LLR, limit) digest".into();
     run.assumptions = vec![
         "message order inside a slice is not constrained (sets keyed by source/dest)".into(),
         "posterior clause uses 0.1 <= |LLR| <= 8 (f64) / 2.5 (f32) and is judged only while every message stays inside the accurate range of phi/tanh (error grows like u*e^|L|, see C04)".into(),
@@ -749,11 +793,14 @@ pub fn run(run: &mut Run) {
         }
     });
     let n3 = if cfg!(miri) { 2 } else { run.tier.n(30_000, 1_000_000) };
-    run.sub("posterior-forests", n3, |l, idx, rng| match idx % 4 {
-        0 => posterior_case::<ldpc_toolbox::decoder::arithmetic::Phif64>(l, "Phif64", &ldpc_toolbox::decoder::arithmetic::Phif64::new, rng),
-        1 => posterior_case::<ldpc_toolbox::decoder::arithmetic::Tanhf64>(l, "Tanhf64", &ldpc_toolbox::decoder::arithmetic::Tanhf64::new, rng),
-        2 => posterior_case::<ldpc_toolbox::decoder::arithmetic::Phif32>(l, "Phif32", &ldpc_toolbox::decoder::arithmetic::Phif32::new, rng),
-        _ => posterior_case::<ldpc_toolbox::decoder::arithmetic::Tanhf32>(l, "Tanhf32", &ldpc_toolbox::decoder::arithmetic::Tanhf32::new, rng),
+    run.sub("posterior-forests", n3, |l, idx, rng| {
+        let star = idx % 20 >= 16;
+        match idx % 4 {
+            0 => posterior_case::<ldpc_toolbox::decoder::arithmetic::Phif64>(l, "Phif64", &ldpc_toolbox::decoder::arithmetic::Phif64::new, rng, star),
+            1 => posterior_case::<ldpc_toolbox::decoder::arithmetic::Tanhf64>(l, "Tanhf64", &ldpc_toolbox::decoder::arithmetic::Tanhf64::new, rng, star),
+            2 => posterior_case::<ldpc_toolbox::decoder::arithmetic::Phif32>(l, "Phif32", &ldpc_toolbox::decoder::arithmetic::Phif32::new, rng, star),
+            _ => posterior_case::<ldpc_toolbox::decoder::arithmetic::Tanhf32>(l, "Tanhf32", &ldpc_toolbox::decoder::arithmetic::Tanhf32::new, rng, star),
+        }
     });
     run.sub_seq("directed", 1, |l, _i, rng| {
         let m = genm::textbook();
